@@ -11,6 +11,10 @@ Tie (all on the real code of $VERIF_REPO):
   * the same for the SQLite back-end (check_sql).
   * float stress through the real to_csv / read_csv, json and np.save paths.
   * token traces of the shared calibrator model with a saving folder (calibrate clause, CalibTokens.check_case).
+Round 4 (generator sweep, design.d/C04.md): input representations (repr_inputs; dtype_inputs and np_scalar are recorded findings),
+attributes reassigned after construction (reassign, two_folders), two live calibrators / reused sampler and loss objects on one folder
+(interleave, reuse), histories of 500-850 rows (long), non-default configuration (config), failing operations followed by normal
+ones (sequences), almost-equal stale rows (prefix probe), homogeneous CSV columns (float stress).
 """
 from __future__ import annotations
 
@@ -133,6 +137,7 @@ def snapshot(cal):
         "bounds": arr_view(g.parameters_bounds), "precision": arr_view(g.parameters_precision),
         "real": arr_view(cal.real_data),
         "E": ("int", int(cal.ensemble_size)) if isinstance(cal.ensemble_size, (int, np.integer)) else (type(cal.ensemble_size).__name__, cal.ensemble_size),
+        "E_type": type(cal.ensemble_size).__name__,
         "N": (type(cal.N).__name__, cal.N), "D": (type(cal.D).__name__, cal.D),
         "prec": (type(cal.convergence_precision).__name__, cal.convergence_precision),
         "verbose": (type(cal.verbose).__name__, cal.verbose),
@@ -235,6 +240,14 @@ def stress_model(theta, N, seed):  # noqa: N803
     return np.frombuffer(buf, dtype=np.float64).reshape(N, d).copy()
 
 
+def tiny_model(theta, N, seed):  # noqa: N803
+    """Like stress_model with 10-bit patterns (subnormals k * 2^-1074): short Coq literals for the 800-row histories."""
+    h = hashlib.sha256(np.asarray(theta, dtype=np.float64).tobytes() + struct.pack("<q", int(seed))).digest()
+    need = N * MODEL_CFG["D"]
+    k = np.frombuffer((h * (need // len(h) + 1))[:need], dtype=np.uint8).astype(np.uint64) * np.uint64(3) + np.uint64(1)
+    return k.view(np.float64).reshape(N, MODEL_CFG["D"]).copy()
+
+
 def other_model(theta, N, seed):  # noqa: N803
     return stress_model(theta, N, seed)
 
@@ -253,8 +266,10 @@ SPECIAL = [0.0, -0.0, float("inf"), float("-inf"), float("nan"), 5e-324, -5e-324
 
 def rand_float(rng, finite=False):
     """A float64 drawn from all binades: random sign/exponent/mantissa, subnormals, specials, decimal-looking values."""
-    k = rng.below(10)
-    if k == 0:
+    k = rng.below(11)
+    if k == 10:  # far from the origin relative to the spread (1e5 .. 1e8 level, O(1) variation), integer-valued floats
+        x = float(10 ** rng.randint(5, 8)) * (1 if rng.below(4) else -1) + (rng.randint(-999, 999) / 1000.0 if rng.below(3) else float(rng.randint(-3, 3)))
+    elif k == 0:
         x = rng.choice(SPECIAL)
     elif k == 1:  # subnormal
         x = struct.unpack("<d", struct.pack("<Q", (rng.below(2) << 63) | rng.below(1 << 52)))[0]
@@ -397,12 +412,63 @@ def make_loss(spec):
     return FourierLoss()
 
 
-def make_calibrator(spec, folder):
+WIDENED = ("f32", "f16", "i32", "u8")       # real-data kinds whose dtype the JSON back-end does not keep (finding)
+
+
+def build_real(spec):
+    """The real-data array in the representation asked for by spec['real_repr'] (default: C-contiguous float64)."""
+    rr = spec.get("real_repr", "f64")
+    n, d, vals = spec["N"], spec["D"], spec["real"]
+    if rr in ("i64", "i32", "u8", "bool"):
+        dt = {"i64": np.int64, "i32": np.int32, "u8": np.uint8, "bool": np.bool_}[rr]
+        return np.array([int(v) for v in vals], dtype=np.int64).astype(dt).reshape(n, d)
+    a = np.array(vals, dtype=np.float64).reshape(n, d)
+    if rr == "f32":
+        return a.astype(np.float32)
+    if rr == "f16":
+        return a.astype(np.float16)
+    if rr == "fortran":
+        return np.asfortranarray(a)
+    if rr == "view":          # every second row of a larger buffer
+        big = np.full((2 * n, d), 7.25)
+        big[::2] = a
+        return big[::2]
+    if rr == "colview":       # every second column of a wider buffer, reversed rows
+        big = np.full((n, 2 * d), -3.5)
+        big[::-1, ::2] = a
+        return big[::-1, ::2]
+    if rr == "readonly":
+        a.flags.writeable = False
+    return a
+
+
+def build_bounds(spec):
+    br = spec.get("bounds_repr", "list")
+    b, p = spec["bounds"], spec["precision"]
+    if br == "tuple":
+        return tuple(tuple(x) for x in b), tuple(p)
+    if br == "array":
+        return np.array(b, dtype=np.float64), np.array(p, dtype=np.float64)
+    if br == "int_array":
+        return np.array(b, dtype=np.int64), np.array(p)
+    if br == "f32_array":
+        return np.array(b, dtype=np.float32), np.array(p, dtype=np.float32)
+    if br == "fortran":
+        return np.asfortranarray(np.array(b, dtype=np.float64)), np.array([x for x in p for _ in (0, 1)], dtype=np.float64)[::2]
+    return b, p               # "list" / "int_list": as written in the spec
+
+
+NP_SCALAR = {"ensemble_size": np.int64, "random_state": np.int64, "convergence_precision": np.int64, "verbose": np.bool_,
+             "sim_length": np.int64, "n_jobs": np.int64}
+
+
+def make_calibrator(spec, folder, reuse=None):
     from black_it.calibrator import Calibrator
 
     MODEL_CFG.update(D=spec["D"], fail_at=spec.get("model_fail_at"), calls=0)
-    model = {"stress_model": stress_model, "other_model": other_model, "real_model": real_model}[spec["model"]]
-    real = np.array(spec["real"], dtype=np.float64).reshape(spec["N"], spec["D"])
+    model = {"stress_model": stress_model, "other_model": other_model, "real_model": real_model, "tiny_model": tiny_model}[spec["model"]]
+    real = build_real(spec)
+    bounds, precision = build_bounds(spec)
     kw = {}
     if spec.get("rl"):
         from black_it.schedulers.rl.agents.epsilon_greedy import MABEpsilonGreedy
@@ -413,14 +479,23 @@ def make_calibrator(spec, folder):
         has_halton = any(type(s).__name__ == "HaltonSampler" for s in ss)
         n = len(ss) + (0 if has_halton else 1)
         kw["scheduler"] = RLScheduler(ss, MABEpsilonGreedy(n, 0.1, 0.1, random_state=1), MABCalibrationEnv(n))
+    elif reuse is not None:   # the very sampler objects (cursors, generators advanced) of a previous calibrator
+        kw["samplers"] = list(reuse.scheduler.samplers)
     else:
         kw["samplers"] = make_samplers(spec)
     if spec.get("sim_length"):
         kw["sim_length"] = spec["sim_length"]
-    return quiet(Calibrator, loss_function=make_loss(spec), real_data=real, model=model,
-                 parameters_bounds=spec["bounds"], parameters_precision=spec["precision"], ensemble_size=spec["E"],
-                 convergence_precision=spec["prec"], verbose=spec["verbose"],
-                 saving_folder=folder if spec["saving"] else None, random_state=spec["seed"], n_jobs=1, **kw)
+    args = {"ensemble_size": spec["E"], "convergence_precision": spec["prec"], "verbose": spec["verbose"],
+            "random_state": spec["seed"], "n_jobs": spec.get("n_jobs", 1)}
+    args.update(kw)
+    for f in spec.get("np_scalars", []):       # numpy scalars in place of the built-in int / bool
+        if args.get(f) is not None:
+            args[f] = NP_SCALAR[f](args[f])
+    sav = folder if spec["saving"] else None
+    if sav is not None and spec.get("folder_repr") == "pathlib":
+        sav = Path(sav)
+    return quiet(Calibrator, loss_function=reuse.loss_function if reuse is not None else make_loss(spec), real_data=real, model=model,
+                 parameters_bounds=bounds, parameters_precision=precision, saving_folder=sav, **args)
 
 
 def gen_stress_spec(rng, E=None, N=None, D=None, dims=None, prec=None):
@@ -453,6 +528,47 @@ def gen_real_spec(rng, kinds, E=None, N=8, D=None):
 
 
 # ------------------------------------------------------------------------------------------------ scenarios
+def apply_repr(rng, s, idx):
+    """Give the real data / the bounds of a stress spec another (legal, dtype-preserving) representation."""
+    rr = ["i64", "bool", "fortran", "view", "colview", "readonly", "i64"][idx % 7]
+    s["real_repr"] = rr
+    n = s["N"] * s["D"]
+    if rr == "i64":      # small values and values at the ends of the int64 range
+        s["real"] = [rng.choice([rng.randint(-9, 9), 2**63 - 1 - rng.below(3), -2**63 + rng.below(3), 2**53 + 1, rng.randint(-10**12, 10**12)])
+                     for _ in range(n)]
+    elif rr == "bool":
+        s["real"] = [rng.below(2) for _ in range(n)]
+    br = rng.choice(["tuple", "array", "int_list", "int_array", "fortran", "list"])
+    s["bounds_repr"] = br
+    dims = len(s["precision"])
+    if br in ("int_list", "int_array"):
+        lo = [rng.randint(-5, 5) for _ in range(dims)]
+        s["bounds"] = [lo, [x + rng.randint(2, 4) for x in lo]]
+        s["precision"] = [1 for _ in range(dims)] if br == "int_array" or rng.below(2) else [rng.choice([1, 0.5, 0.25]) for _ in range(dims)]
+
+
+def gen_reassign(rng, s):
+    """A few public attributes and the values assigned to them after construction."""
+    n = s["N"] * s["D"]
+    pool = {
+        "convergence_precision": lambda: rng.choice([None, 0, rng.randint(8, 14)]),
+        "verbose": lambda: bool(rng.below(2)),
+        "n_jobs": lambda: rng.randint(2, 5),
+        "random_state": lambda: rng.choice([None, rng.below(2**31), 0]),
+        "real_replace": lambda: [rand_float(rng) for _ in range(n)],
+        "real_inplace": lambda: [rng.below(n), rand_float(rng)],
+        "loss_replace": lambda: {"kind": "stress", "script": [abs(rand_float(rng, finite=True)) + 1.0 for _ in range(rng.randint(2, 6))]},
+        "sampler_batch_size": lambda: [rng.below(len(s["samplers"])), rng.randint(1, 4)],
+        "sampler_random_state": lambda: [rng.below(len(s["samplers"])), rng.below(1000)],
+    }
+    names = sorted(pool)
+    out = {}
+    for _ in range(rng.randint(2, 4)):
+        k = rng.choice(names)
+        out[k] = pool[k]()
+    return out
+
+
 def gen_scenario(rng, kind, idx, quick=True):
     """A scenario = ops on ONE folder.  ops: new(spec) | calibrate(n) | checkpoint | verify | restore | set_samplers."""
     sc = {"idx": idx, "kind": kind, "ops": []}
@@ -531,6 +647,136 @@ def gen_scenario(rng, kind, idx, quick=True):
         ops += [["new", s]]
         ops += [["calibrate", rng.randint(1, 2)]] if s["saving"] else [["calibrate", 1], ["checkpoint"]]
         ops += [["verify_rl"]]
+    elif kind == "repr_inputs":
+        # dimension 1: the caller's arrays in another representation (integer / bool real data, Fortran order, strided
+        # views, read-only, tuples, ndarray / integer bounds); the restored calibrator must carry the same values AND dtypes
+        s = gen_stress_spec(rng, D=rng.randint(2, 3) if rng.below(2) else None)
+        apply_repr(rng, s, idx)
+        ops += [["new", s], ["calibrate", rng.randint(1, 2)], ["verify"], ["restore"], ["calibrate", 1], ["verify"]]
+    elif kind == "dtype_inputs":
+        # narrower dtypes than the JSON back-end keeps (finding input-dtype-widened)
+        s = gen_stress_spec(rng)
+        v = idx % 5
+        if v == 4:
+            s["bounds_repr"] = "f32_array"
+        else:
+            s["real_repr"] = WIDENED[v]
+            if s["real_repr"] in ("i32", "u8"):
+                s["real"] = [rng.randint(0, 255) for _ in s["real"]]
+        ops += [["new", s], ["calibrate", 1], ["verify"]]
+    elif kind == "np_scalar":
+        s = gen_stress_spec(rng, prec=rng.randint(7, 12))
+        s["loss"]["script"] = [abs(rand_float(rng, finite=True)) + 1.0 for _ in range(4)]
+        f = ["ensemble_size", "random_state", "convergence_precision", "verbose", "sim_length", "saving_folder"][idx % 6]
+        if f == "saving_folder":
+            s["folder_repr"] = "pathlib"
+        else:
+            s["np_scalars"] = [f]
+            if f == "random_state":
+                s["seed"] = rng.below(2**31)
+            if f == "sim_length":
+                s["sim_length"] = s["N"] + 1
+        sc["scalar_field"] = f
+        ops += [["new", s], ["calibrate", 1], ["verify_np_scalar"]]
+    elif kind == "reassign":
+        # dimension 3: public attributes assigned after construction - the value in force is the assigned one
+        s = gen_stress_spec(rng)
+        ops += [["new", s], ["calibrate", rng.randint(1, 2)]]
+        ch = gen_reassign(rng, s)
+        ops += [["setattr", ch]]
+        if "n_jobs" in ch or rng.below(2):
+            ops += [["checkpoint"], ["verify"], ["setattr", {"n_jobs": 1}]]
+        ops += [["calibrate", 1], ["verify"], ["restore"]]
+        ch2 = gen_reassign(rng, s)
+        ch2.pop("n_jobs", None)
+        ops += [["setattr", ch2], ["calibrate", rng.below(2)], ["verify"]]
+    elif kind == "two_folders":
+        # the saving folder itself is reassigned: the same calibrator writes to two folders alternately
+        s = gen_stress_spec(rng)
+        ops += [["new", s], ["calibrate", 1], ["verify"], ["use_folder", 1], ["calibrate", rng.randint(1, 2)], ["verify"],
+                ["use_folder", 0], ["calibrate", 1], ["verify"], ["use_folder", 1], ["calibrate", rng.below(2)], ["verify"]]
+    elif kind == "interleave":
+        # dimension 2: two live calibrators (the original and a restored copy) write into the same folder in turn
+        # (the copy is reseeded or given other samplers: left alone it would replay the original's rows bit for bit)
+        s = gen_stress_spec(rng)
+        div = ["setattr", {"random_state": rng.below(2**31)}] if rng.below(3) else \
+            ["set_samplers", gen_stress_spec(rng, dims=len(s["precision"]))["samplers"]]
+        ops += [["new", s], ["calibrate", 1], ["fork"], div, ["calibrate", 1], ["verify"], ["swap"], ["calibrate", 1], ["verify"],
+                ["swap"], ["calibrate", 1], ["verify"], ["swap"], ["calibrate", rng.below(2)], ["verify"]]
+        if rng.below(2):
+            ops += [["swap"], ["checkpoint"], ["verify"]]
+    elif kind == "reuse":
+        # dimension 2: a second calibrator built on the SAME sampler / loss objects, saving into the same folder
+        a = gen_stress_spec(rng)
+        b = gen_stress_spec(rng, E=a["E"] if rng.below(2) else None, N=a["N"] if rng.below(2) else None, D=a["D"],
+                            dims=len(a["precision"]))
+        ops += [["new", a], ["calibrate", rng.randint(1, 2)], ["verify"], ["new_reuse", b], ["calibrate", rng.randint(1, 2)], ["verify"],
+                ["restore"], ["calibrate", 1], ["verify"]]
+    elif kind == "long":
+        # dimension 4: histories longer than any block size a writer could use (256 / 512 rows), big single appends
+        bs = rng.choice([257, 300])
+
+        def tiny(n):
+            return [rng.randint(1, 999) * 5e-324 for _ in range(n)]
+
+        s = gen_stress_spec(rng, E=1, N=1, D=1, dims=1)
+        s["samplers"] = [{"kind": "StressA", "bs": bs, "script": tiny(7), "seed": None},
+                         {"kind": "StressB", "bs": rng.choice([255, 256]), "script": tiny(5), "seed": 3}]
+        b = gen_stress_spec(rng, E=1, N=1, D=1, dims=1)
+        b["samplers"] = [{"kind": "StressC", "bs": rng.choice([100, 256]), "script": tiny(6), "seed": None}]
+        for x in (s, b):
+            x.update(model="tiny_model", verbose=False, sim_length=None, prec=None)
+            x["loss"]["script"] = tiny(9)
+        ops += [["new", s], ["calibrate", 2], ["restore"], ["calibrate", 1], ["verify"], ["new", b], ["calibrate", 1], ["verify"]]
+    elif kind == "config":
+        # dimension 5: non-default configuration that the other scenarios leave at its default
+        v = idx % 6
+        s = gen_stress_spec(rng)
+        if v in (0, 1):      # a convergence precision of 0 / larger than 8 that does NOT stop the run
+            s["prec"] = 0 if v == 0 else rng.choice([9, 12, 15, 20])
+            s["loss"]["script"] = [abs(rand_float(rng, finite=True)) + 1.0 for _ in range(5)]
+            s["verbose"] = True
+            ops += [["new", s], ["calibrate", 2], ["verify"], ["restore"], ["calibrate", 1], ["verify"]]
+        elif v == 2:         # n_jobs other than 1 (no simulation is run with it: only its persistence is at stake)
+            s["n_jobs"] = rng.choice([None, 2, 3])
+            ops += [["new", s], ["calibrate", 0], ["verify"], ["checkpoint"], ["verify"]]
+        elif v in (3, 4):    # the folder named by a relative path / with a trailing separator
+            s["folder_repr"] = "rel" if v == 3 else "slash"
+            ops += [["new", s], ["calibrate", 1], ["verify"], ["restore"], ["calibrate", 1], ["verify"]]
+        else:                # create_checkpoint(os.PathLike) on a calibrator without a saving folder
+            s["saving"] = False
+            ops += [["new", s], ["calibrate", 1], ["checkpoint", "pathlib"], ["verify"], ["calibrate", 1], ["checkpoint", "slash"], ["verify"]]
+    elif kind == "sequences":
+        # dimension 6: a failing / rejected / empty operation followed by a normal one
+        v = idx % 6
+        s = gen_stress_spec(rng)
+        if v == 0:           # calibrate() raises (model or loss), then goes on; then an empty session
+            if rng.below(2):
+                s["model_fail_at"] = rng.randint(0, 8)
+            else:
+                s["loss"]["fail_at"] = rng.randint(0, 4)
+            ops += [["new", s], ["calibrate", 4], ["verify_after_exception"], ["calibrate", 2], ["verify"], ["calibrate", 0], ["verify"]]
+        elif v == 1:         # restore, reconfigure, empty session
+            ops += [["new", s], ["calibrate", rng.randint(1, 2)], ["restore"],
+                    ["set_samplers", gen_stress_spec(rng, dims=len(s["precision"]))["samplers"]], ["calibrate", 0], ["verify"],
+                    ["calibrate", 1], ["verify"]]
+        elif v == 2:         # a save that fails (loss temporarily unpicklable), then a normal one
+            s["saving"] = bool(rng.below(2))
+            ops += [["new", s], ["calibrate", 1]] + ([] if s["saving"] else [["checkpoint"]])
+            ops += [["setattr", {"loss_unpicklable": True}], ["calibrate", 1] if s["saving"] else ["checkpoint"],
+                    ["setattr", {"loss_unpicklable": False}], ["calibrate", rng.below(2)], ["checkpoint"], ["verify"]]
+        elif v == 3:         # reconfiguration before the first batch, then an empty session
+            ops += [["new", s], ["set_samplers", gen_stress_spec(rng, dims=len(s["precision"]))["samplers"]], ["calibrate", 0], ["verify"],
+                    ["calibrate", 1], ["verify"]]
+        elif v == 4:         # early stop, then an empty session, then a set_scheduler
+            p = rng.randint(0, 6)
+            s["prec"] = p
+            s["loss"]["script"] = [abs(rand_float(rng, finite=True)) + 1.0 for _ in range(rng.randint(1, 4))] + [0.0, 3.0, 4.0]
+            ops += [["new", s], ["calibrate", 5], ["verify"], ["calibrate", 0], ["verify"],
+                    ["set_scheduler", gen_stress_spec(rng, dims=len(s["precision"]))["samplers"]], ["calibrate", 0], ["verify"]]
+        else:                # restore and checkpoint at once (no new row), twice
+            ops += [["new", s], ["calibrate", 2], ["restore"], ["checkpoint"], ["verify"], ["restore"], ["checkpoint"], ["verify"],
+                    ["calibrate", 1], ["verify"]]
     elif kind.startswith("real"):
         kinds = sc_kinds = kind.split(":")[1].split(",")
         a = gen_real_spec(rng, kinds)
@@ -543,37 +789,92 @@ def gen_scenario(rng, kind, idx, quick=True):
     return sc
 
 
+def apply_setattr(cal, ch):
+    """Assign public attributes of a live calibrator (and of its samplers / loss)."""
+    for k, v in ch.items():
+        if k in ("convergence_precision", "verbose", "n_jobs", "random_state"):
+            setattr(cal, k, v)
+        elif k == "real_replace":
+            cal.real_data = np.array(v, dtype=np.float64).reshape(np.shape(cal.real_data))
+        elif k == "real_inplace":
+            if cal.real_data.flags.writeable and cal.real_data.dtype.kind == "f":
+                cal.real_data.reshape(-1)[v[0] % cal.real_data.size] = v[1]
+        elif k == "loss_replace":
+            cal.loss_function = make_loss({"loss": v})
+        elif k == "sampler_batch_size":
+            ss = cal.scheduler.samplers
+            ss[v[0] % len(ss)].batch_size = v[1]
+        elif k == "sampler_random_state":
+            ss = cal.scheduler.samplers
+            ss[v[0] % len(ss)].random_state = v[1]
+        elif k == "loss_unpicklable":
+            if v:
+                cal.loss_function.hook = lambda: 0      # a local function: pickle.dump raises
+            elif hasattr(cal.loss_function, "hook"):
+                del cal.loss_function.hook
+
+
 def run_scenario(sc):
     """Execute on the real code; returns the verification points with everything needed by oracle and Coq emission."""
     from black_it.calibrator import Calibrator
+    from black_it.schedulers.round_robin import RoundRobinScheduler
     from black_it.utils import sqlite3_checkpointing as sq
 
     root = SCRATCH / f"{os.getpid()}" / f"s{sc['idx']}"
     shutil.rmtree(root, ignore_errors=True)
     root.mkdir(parents=True)
-    folder = str((root / "ckpt").resolve())
+    # two folders (the second one for a reassigned saving_folder); key = resolved path, arg = what the calibrator is given
+    keys = [str((root / "ckpt").resolve()), str((root / "ckpt2").resolve())]
+    frepr = next((op[1].get("folder_repr") for op in sc["ops"] if op[0] == "new" and op[1].get("folder_repr")), None)
+    fargs = list(keys)
+    if frepr == "rel":
+        fargs = ["ckpt", "ckpt2"]
+    elif frepr == "slash":
+        fargs = [k + "/" for k in keys]
+    which = 0
     dbdir = root / "db"
     dbdir.mkdir()
     points, sql_hist = [], []
-    cal, spec, err_log = None, None, []
-    with Recorder() as rec:
+    cal, other, spec, err_log = None, None, None, []
+    cwd = os.getcwd()
+    if frepr == "rel":
+        os.chdir(root)
+    try:
+      with Recorder() as rec:
         for op in sc["ops"]:
             err = None
+            folder, farg = keys[which], fargs[which]
             try:
                 if op[0] == "new":
                     release(cal)
                     spec = op[1]
-                    cal = make_calibrator(spec, folder)
+                    cal = make_calibrator(spec, farg)
+                elif op[0] == "new_reuse":
+                    spec = op[1]
+                    cal = make_calibrator(spec, farg, reuse=cal)
                 elif op[0] == "calibrate":
                     quiet(cal.calibrate, op[1])
                 elif op[0] == "checkpoint":
-                    quiet(cal.create_checkpoint, folder)
+                    how = op[1] if len(op) > 1 else None
+                    quiet(cal.create_checkpoint, Path(farg) if how == "pathlib" else (folder + "/" if how == "slash" else farg))
                 elif op[0] == "restore":
                     MODEL_CFG.update(D=spec["D"])
-                    cal = quiet(Calibrator.restore_from_checkpoint, folder, cal.model)
+                    cal = quiet(Calibrator.restore_from_checkpoint, farg, cal.model)
+                elif op[0] == "fork":
+                    other, cal = cal, quiet(Calibrator.restore_from_checkpoint, farg, cal.model)
+                elif op[0] == "swap":
+                    cal, other = other, cal
+                elif op[0] == "use_folder":
+                    which = op[1]
+                    folder, farg = keys[which], fargs[which]
+                    cal.saving_folder = farg
+                elif op[0] == "setattr":
+                    apply_setattr(cal, op[1])
                 elif op[0] == "set_samplers":
                     new = make_samplers({"samplers": op[1]})
                     cal.set_samplers(new)
+                elif op[0] == "set_scheduler":
+                    cal.set_scheduler(RoundRobinScheduler(make_samplers({"samplers": op[1]})))
             except Exception as e:  # noqa: BLE001
                 err = e
             err_log.append(None if err is None else f"{type(err).__name__}: {err}")
@@ -585,7 +886,7 @@ def run_scenario(sc):
                     model = stress_model
                 rerr, restored = None, None
                 try:
-                    restored = snapshot(quiet(Calibrator.restore_from_checkpoint, folder, model))
+                    restored = snapshot(quiet(Calibrator.restore_from_checkpoint, farg, model))
                 except Exception as e:  # noqa: BLE001
                     rerr = e
                 prev_ok = [h for h in hist if h["mode"] != 0]
@@ -595,7 +896,7 @@ def run_scenario(sc):
                       "last_saved": prev_ok[-1]["snap"] if prev_ok else None,
                       "h5calls": [h.get("h5calls") for h in hist]}
                 # SQLite back-end on the same live state (the module is independent of the Calibrator)
-                if sc.get("sql") and op[0] in ("verify", "verify_rl"):
+                if sc.get("sql") and op[0] in ("verify", "verify_rl", "verify_np_scalar"):
                     saved = 1
                     try:
                         sq.save_calibrator_state(dbdir, cal.param_grid.parameters_bounds, cal.param_grid.parameters_precision,
@@ -610,7 +911,10 @@ def run_scenario(sc):
                     sql_hist.append((live, saved))
                     pt["sql"] = sql_load(sq, dbdir, list(sql_hist))
                 points.append(pt)
+    finally:
+        os.chdir(cwd)
     release(cal)
+    release(other)
     shutil.rmtree(root, ignore_errors=True)
     return {"points": points, "errors": err_log}
 
@@ -697,7 +1001,7 @@ def c_state(sn, tk, loaded_sql=False):
         c_mat(rows_of(sn["real"], rshape[1] if len(rshape) > 1 else 1)),
         cnat(val(sn["E"])), cnat(val(sn["N"])), cnat(val(sn["D"])),
         "None" if prec is None else f"(Some {cnat(int(prec))})", cbool(bool(val(sn["verbose"]))),
-        copt(val(sn["saving"]), lambda x: cnat(tk.s(x))), copt(seed, lambda x: cz(int(x))),
+        copt(val(sn["saving"]), lambda x: cnat(tk.s(str(x)))), copt(seed, lambda x: cz(int(x))),
         clist([cz(x) for x in genl]), cnat(tk.s(sn["model"])),
         f"({cz(tk.o(sn['sched']))}, {cbool(sn['sched']['pickle'] is not None)})",
         f"({cz(tk.o(sn['loss']))}, {cbool(sn['loss']['pickle'] is not None)})",
@@ -713,16 +1017,20 @@ def c_state(sn, tk, loaded_sql=False):
 
 def emit_point(pt):
     tk = Toks()
-    hist = clist([c_state(s, tk) for s, _ in pt["hist"]])
+    states = [c_state(s, tk) for s, _ in pt["hist"]]
     modes = clist([cnat(m) for _, m in pt["hist"]])
     name = cnat(tk.s(pt["model_name"]))
-    rest = "None" if pt["restored"] is None else f"(Some {c_state(pt['restored'], tk)})"
-    return f"(mkCC {hist} {name} {modes} {cnat(pt['rexn'])} {rest})"
+    rest = None if pt["restored"] is None else c_state(pt["restored"], tk)
+    if rest is not None and states and rest == states[-1]:
+        # the restored state is, literally, the last saved one: written once (a third of the text Coq has to parse)
+        return f"(let r := {rest} in mkCC {clist(states[:-1] + ['r'])} {name} {modes} {cnat(pt['rexn'])} (Some r))"
+    return f"(mkCC {clist(states)} {name} {modes} {cnat(pt['rexn'])} {'None' if rest is None else f'(Some {rest})'})"
 
 
 def emit_sql(sqp):
     tk = Toks()
-    hist = clist([c_state(s, tk) for s, _ in sqp["hist"]])
+    states = [c_state(s, tk) for s, _ in sqp["hist"]]
+    hist = clist(states)
     saved = clist([cnat(x) for _, x in sqp["hist"]])
     ld = sqp["loaded"]
     if ld is None:
@@ -733,8 +1041,11 @@ def emit_sql(sqp):
     prec_t, verb_t = ld["prec"][0], ld["verbose"][0]
     if ld["prec"][1] is not None:
         full["prec"] = ("int", int(ld["prec"][1]))
-    return (f"(mkSQ {hist} {saved} 0 (Some {c_state(full, tk)}) {cbool(prec_t in ('int', 'NoneType'))} "
-            f"{cbool(verb_t == 'bool')})")
+    got = c_state(full, tk)
+    flags = f"{cbool(prec_t in ('int', 'NoneType'))} {cbool(verb_t == 'bool')}"
+    if states and got == states[-1]:
+        return f"(let r := {got} in mkSQ {clist(states[:-1] + ['r'])} {saved} 0 (Some r) {flags})"
+    return f"(mkSQ {hist} {saved} 0 (Some {got}) {flags})"
 
 
 # ------------------------------------------------------------------------------------------------ oracles
@@ -766,6 +1077,17 @@ def oracle_point(sc, pt):
             elif diff == ["series"] and len(pt["hist"]) >= 2:
                 fails.append(({"kind": "stale_series", "history": kind, "effect": "restored series differ"},
                               f"restored series shape {pt['restored']['series']['shape']} vs saved {pt['live']['series']['shape']}"))
+            elif widened_only(pt["live"], pt["restored"], diff):
+                # finding input-dtype-widened: the JSON text keeps the VALUES of a float32 / float16 / int32 / uint8 array
+                # (exactly) but not its dtype: the restored array is float64 / int64
+                for k in diff:
+                    if k == "grid":
+                        fails.append(({"kind": "input_dtype_widened", "component": "grid"},
+                                      "the search grid built from the restored (float64) bounds differs from the one built from the float32 bounds"))
+                        continue
+                    fails.append(({"kind": "input_dtype_widened", "component": k, "saved_dtype": pt["live"][k]["dtype"],
+                                   "restored_dtype": pt["restored"][k]["dtype"]},
+                                  f"{k}: saved dtype {pt['live'][k]['dtype']}, restored {pt['restored'][k]['dtype']} (values equal)"))
             elif pt["live"]["params"]["shape"][0] == 0 and set(diff) <= {"params", "losses", "bnums", "methods"}:
                 fails.append(({"kind": "empty_table_dtype"},
                               "restored dtypes " + str({k: pt['restored'][k]['dtype'] for k in diff})))
@@ -784,6 +1106,22 @@ def oracle_point(sc, pt):
             if diff:
                 fails.append(({"kind": "restore_differs", "history": kind, "components": sorted(diff)},
                               f"after an exception the folder differs from the last checkpoint in {diff}"))
+    elif pt["op"] == "verify_np_scalar":
+        # a numpy scalar (np.int64 / np.bool_) or a pathlib.Path where the signature says int / bool / str
+        f = sc.get("scalar_field")
+        tc = "pathlib" if f == "saving_folder" else "numpy_scalar"
+        if pt["last_op_error"] and "JSON serializable" in pt["last_op_error"]:
+            fails.append(({"kind": "config_scalar_unserialisable", "type_class": tc, "field": f, "backend": "json"},
+                          f"calibrate() with a saving folder raised {pt['last_op_error']}; restore: {pt['rexc'] or 'ok'}"))
+        elif pt["last_op_error"] or pt["rexn"] != 0:
+            fails.append(({"kind": "restore_raises", "history": kind, "exception": (pt["rexc"] or pt["last_op_error"] or "").split(":")[0]},
+                          f"calibrate: {pt['last_op_error']}; restore: {pt['rexc']}"))
+        else:   # after a repair: the value must come back (as the same number / path; the scalar type may be the built-in one)
+            diff = [k for k in snap_diff(pt["live"], pt["restored"]) if not (
+                k == "E_type" or (k in SCALAR_KEYS and str(pt["live"][k][1]) == str(pt["restored"][k][1])))]
+            if diff:
+                fails.append(({"kind": "restore_differs", "history": kind, "components": sorted(diff)},
+                              f"restored calibrator differs from the saved one in {diff}"))
     elif pt["op"] == "verify_wrong_model":
         if pt["rexn"] != 8:
             fails.append(({"kind": "wrong_model_accepted"}, f"restore with another model: {pt['rexc'] or 'accepted'}"))
@@ -793,6 +1131,47 @@ def oracle_point(sc, pt):
             fails.append(({"kind": "rl_scheduler_unpicklable"},
                           f"checkpoint with an RL scheduler: {pt['last_op_error']}; restore: {pt['rexc']}"))
     return fails
+
+
+SCALAR_KEYS = ("E", "N", "D", "prec", "verbose", "saving", "seed", "njobs")
+NARROW = ("<f4", "<f2", "<i4", "<i2", "|i1", "|u1", "<u2", "<u4")
+
+
+def widened_only(live, restored, diff):
+    """True iff the only differences are arrays given with a narrow dtype that came back, value for value, as float64/int64."""
+    if not diff or not set(diff) <= {"real", "bounds", "precision", "grid"} or (
+            "grid" in diff and "bounds" not in diff and "precision" not in diff):
+        return False
+    for k in diff:
+        if k == "grid":     # consequence of float32 bounds: `hi + 1e-7` and the step are evaluated in another precision
+            continue
+        a, b = live[k], restored[k]
+        if not (a["dtype"] in NARROW and b["dtype"] in ("<f8", "<i8") and a["shape"] == b["shape"] and a["ints"] == b["ints"]
+                and (a["dtype"][1] == "f") == (b["dtype"] == "<f8")):
+            return False
+    return True
+
+
+def oracle_sql_np_scalar(sc, pt):
+    """SQLite back-end on a calibrator configured with a numpy scalar / a Path (same finding as for the JSON back-end)."""
+    f = sc.get("scalar_field")
+    tc = "pathlib" if f == "saving_folder" else "numpy_scalar"
+    key = {"ensemble_size": "E", "random_state": "seed", "convergence_precision": "prec", "verbose": "verbose", "sim_length": "N",
+           "saving_folder": "saving"}[f]
+    sqp = pt["sql"]
+    d = {"kind": "config_scalar_unserialisable", "type_class": tc, "field": f, "backend": "sqlite"}
+    if pt.get("sql_save_exc"):
+        return [(d, f"sqlite save raised {pt['sql_save_exc']}")]
+    out = []
+    for dd, msg in oracle_sql(sqp):
+        if dd.get("field") == key and sqp["loaded"] is not None:
+            got = sqp["loaded"][key][1]
+            if str(got) == str(sqp["hist"][-1][0][key][1]):
+                continue            # same value, built-in type: acceptable
+            out.append((d, f"sqlite: {f} saved {sqp['hist'][-1][0][key]!r} loaded {got!r}"))
+        else:
+            out.append((dd, msg))
+    return out
 
 
 def oracle_sql(sqp):
@@ -898,6 +1277,34 @@ def float_stress(chk, n):
         if name.startswith(("npsave", "h5")):
             payload_kept += int(np.array_equal(np.ascontiguousarray(a).view(np.uint64), np.ascontiguousarray(b).view(np.uint64)))
     res["binary_paths_bit_identical_incl_nan_payload"] = payload_kept
+    # round 4: columns whose text looks like another type - integer-valued floats (also beyond 2^53), all-NaN (empty fields), all-inf,
+    # all -0.0, far-from-origin values, one single row; losses that are all integer-valued
+    m = 40
+    cols = [np.array([float(rng.randint(-10**6, 10**6)) for _ in range(m)]), np.full(m, np.nan), np.full(m, -0.0),
+            np.array([[np.inf, -np.inf][i % 2] for i in range(m)]), np.array([1e22 + 4194304.0 * i for i in range(m)]),
+            np.array([1e8 + rng.randint(-999, 999) / 1000.0 for _ in range(m)]), np.array([2.0**53 + 2 * i for i in range(m)]),
+            np.full(m, np.inf), np.zeros(m), np.array([float(2**63 - 1024 * i) for i in range(m)])]
+    cols += [np.full(m, 1e5 + 0.1)] * 2          # 12 parameter columns: params_samp_10 / _11 sort before params_samp_2
+    for rows in (m, 1):
+        pm = np.column_stack(cols)[:rows].copy()
+        ls = np.array([float(rng.randint(0, 9)) for _ in range(rows)])
+        sr = np.zeros((rows, 1, 1, 1))
+        try:
+            jp.save_calibrator_state(root / "j2", np.vstack([np.zeros(12), np.ones(12)]), np.full(12, 0.5), real[:3], 1, 3, 1, None, False,
+                                     None, 7, gs, "m", ["s"], "l", 1, rows, 1, pm, ls, sr, np.zeros(rows, dtype=int), np.zeros(rows, dtype=int))
+            o2 = jp.load_calibrator_state(root / "j2", 1)
+            for name, a, b in (("csv:params_samp(homogeneous columns)", pm, o2[17]), ("csv:losses_samp(integer-valued)", ls, o2[18])):
+                b = np.asarray(b)
+                if b.shape != a.shape or b.dtype != a.dtype:
+                    res["bad"].append({"path": name, "what": f"shape/dtype {a.shape}/{a.dtype} -> {b.shape}/{b.dtype}"})
+                elif canon_bits(a).tobytes() != canon_bits(b).tobytes():
+                    i = int(np.flatnonzero(canon_bits(a).ravel() != canon_bits(b).ravel())[0])
+                    res["bad"].append({"path": name, "rows": rows, "column": i % a.shape[-1] if a.ndim > 1 else 0,
+                                       "first": float(a.ravel()[i]).hex(), "came_back": float(b.ravel()[i]).hex()})
+        except Exception as e:  # noqa: BLE001
+            res["bad"].append({"path": "csv:homogeneous columns", "what": f"{type(e).__name__}: {e}"})
+        shutil.rmtree(root / "j2", ignore_errors=True)
+        res["floats"] += int(pm.size + ls.size)
     canon_nan_rows = np.flatnonzero(np.isnan(losses) & (losses.view(np.uint64) == NAN_BITS))
     if len(canon_nan_rows) and not np.all(np.asarray(out[18]).view(np.uint64)[canon_nan_rows] == NAN_BITS):
         res["bad"].append({"path": "csv:losses_samp", "what": "canonical nan not bit-identical"})
@@ -986,6 +1393,50 @@ def prefix_probe(chk, stats):
                                    f"{differ}; after saving {len(new)} rows the restored series " +
                                    ("raised " + err if got is None else "are not the saved ones"),
                                    "case": {"prefix_probe": {"r": r, "extra": extra, "differ": differ}}})
+    # round 4: rows on disk that are *almost* the rows being saved - equal as numbers (0.0 / -0.0), one ulp apart, closer than any
+    # isclose tolerance, NaN against a number; a value comparison or a tolerance would keep the stale row
+    def canon_bytes(a):
+        b = np.ascontiguousarray(a, dtype=np.float64).view(np.uint64).copy()
+        b[np.isnan(np.ascontiguousarray(a, dtype=np.float64))] = NAN_BITS
+        return b.tobytes()
+
+    for how in ("negzero", "poszero", "ulp", "tiny", "subnormal", "nan_vs_number", "number_vs_nan", "far_ulp"):
+        for r, extra in ((1, 1), (2, 0), (3, 2)):
+            differ = int(g.integers(r))
+            if root.exists():
+                shutil.rmtree(root)
+            old = g.random((r, 2, 3, 1)) + (1e7 if how == "far_ulp" else 0.0)
+            new = np.concatenate([old.copy(), g.random((extra, 2, 3, 1))])
+            pos = (differ, int(g.integers(2)), int(g.integers(3)), 0)
+            if how == "negzero":
+                old[pos], new[pos] = 0.0, -0.0
+            elif how == "poszero":
+                old[pos], new[pos] = -0.0, 0.0
+            elif how in ("ulp", "far_ulp"):
+                new[pos] = np.nextafter(old[pos], np.inf)
+            elif how == "tiny":
+                old[pos], new[pos] = 0.0, 1e-300
+            elif how == "subnormal":
+                old[pos], new[pos] = 0.0, 5e-324
+            elif how == "nan_vs_number":
+                old[pos] = np.nan
+            else:
+                new[pos] = np.nan
+            n += 1
+            stats["prefix-probe-almost-equal"] += 1
+            got, err = None, None
+            try:
+                save(root, old)
+                save(root, new)
+                got = load_calibrator_state(root, 1)[19]
+            except Exception as e:  # noqa: BLE001
+                err = f"{type(e).__name__}: {e}"
+            if got is None or got.shape != new.shape or canon_bytes(got) != canon_bytes(new):
+                chk.violation({"kind": "stale_series", "variant": "almost-equal-row"},
+                              {"failed": "oracle:series", "detail": f"folder held {r} rows equal to the first rows being saved except one entry "
+                               f"({how}: on disk {old[pos]!r}, saved {new[pos]!r}); after saving {len(new)} rows the restored series " +
+                               (f"raised {err}" if got is None else f"hold {got[pos]!r} there"),
+                               "case": {"prefix_probe": {"how": how, "r": r, "extra": extra}}})
     # an EMPTY checkpoint of another run (calibrate(0) / create_checkpoint before any batch) with another series layout:
     # zero rows are a prefix of anything only if the row layout is the same
     for old_shape in ((0, 2, 3, 1), (0, 1, 3, 1), (0, 3, 3, 1), (0, 2, 1, 1), (0, 2, 3, 2)):
@@ -1012,6 +1463,57 @@ def prefix_probe(chk, stats):
     return n
 
 
+def balanced_order(lits, shard):
+    """A permutation of range(len(lits)) such that consecutive groups of `shard` items have about the same total length."""
+    n = len(lits)
+    if n <= shard:
+        return list(range(n))
+    ng = -(-n // shard)
+    room = [shard] * (ng - 1) + [n - shard * (ng - 1)]
+    groups, load = [[] for _ in range(ng)], [0] * ng
+    for i in sorted(range(n), key=lambda i: -len(lits[i])):
+        j = min((g for g in range(ng) if len(groups[g]) < room[g]), key=lambda g: load[g])
+        groups[j].append(i)
+        load[j] += len(lits[i])
+    return [i for g in groups for i in sorted(g)]
+
+
+def shard_for(lits, cap_kb=110, most=20):
+    """Cases per generated Coq file such that a file stays near cap_kb (coqc needs about 1.2 GB per MB of literals)."""
+    if not lits:
+        return most
+    groups = max(-(-len(lits) // most), -(-sum(map(len, lits)) // (cap_kb * 1024)))
+    return max(1, -(-len(lits) // groups))
+
+
+def coq_eval_cases(chk, name, fn, ty, lits, imports=IMPORTS):
+    """chk.coq_mismatches on size-balanced files; a coqc that was KILLED (rc -9 / 137: the OOM killer of a loaded machine) is
+    re-run alone, twice at most - a second kill stays an error (fail closed).  Returns (perm, bad, errors): `lits[perm[i]]` is
+    case i of the evaluation order, `bad` are indices into that order."""
+    shard = shard_for(lits)
+    perm = balanced_order(lits, shard)
+    ordered = [lits[i] for i in perm]
+    bad, errors = [], []
+    todo = [(0, ordered, shard, name)] if ordered else []
+    for attempt in (0, 1, 2):
+        again = []
+        for off, sub, sh, nm in todo:
+            b2, e2 = chk.coq_mismatches(nm, imports, fn, ty, sub, shard=sh)
+            bad += [off + i for i in b2]
+            for e in e2:
+                if ("rc=-9" in e or "rc=137" in e) and attempt < 2:
+                    j = int(e.split(".v")[0].rsplit("_", 1)[1])
+                    part = sub[j * sh:(j + 1) * sh]
+                    again.append((off + j * sh, part, max(1, -(-len(part) // 2)), f"{nm}k{j}"))
+                else:
+                    errors.append(e)
+        todo = again
+        if not todo:
+            break
+        time.sleep(5 * (attempt + 1))
+    return perm, sorted(bad), errors
+
+
 def plan(chk):
     rng = chk.rng
     quick = chk.tier == "quick"
@@ -1019,8 +1521,11 @@ def plan(chk):
     mult = 1 if quick else 8
     for k, n in (("fresh_explicit", 4), ("fresh_auto", 4), ("same_run", 10), ("other_more", 8), ("other_fewer", 8), ("other_E", 8),
                  ("other_shape", 5), ("other_dims", 3), ("empty_table", 4), ("calibrate_zero", 5), ("early_stop", 6), ("exception", 6),
-                 ("set_samplers", 5), ("wrong_model", 2), ("rl", 4)):
-        kinds += [k] * (n * mult)
+                 ("set_samplers", 5), ("wrong_model", 2), ("rl", 4),
+                 # round 4 (generator sweep): representation, reuse, reassignment, thresholds, configuration, sequences
+                 ("repr_inputs", 7), ("reassign", 6), ("two_folders", 3), ("interleave", 4), ("reuse", 3), ("long", 2), ("config", 6),
+                 ("sequences", 6), ("dtype_inputs", 5), ("np_scalar", 6)):
+        kinds += [k] * (n * (mult if k != "long" else (1 if quick else 3)))
     real = ["real:RandomUniform,Halton,RSequence,BestBatch", "real:Halton,ParticleSwarm,CORS", "real:RandomUniform,GaussianProcess,RandomForest",
             "real:Halton,BestBatch,GaussianProcess", "real:RSequence,RandomForest,ParticleSwarm", "real:Halton,XGBoost",
             "real:RandomUniform,CORS,BestBatch", "real:Halton,RandomForest,CORS,ParticleSwarm,GaussianProcess"]
@@ -1030,7 +1535,7 @@ def plan(chk):
     scs = []
     for i, k in enumerate(kinds):
         sc = gen_scenario(rng, k, i, quick)
-        sc["sql"] = (i % 2 == 0) or k == "rl"
+        sc["sql"] = ((i % 2 == 0) or k in ("rl", "np_scalar", "dtype_inputs")) and not (k == "long" and quick)
         scs.append(sc)
     return scs
 
@@ -1041,6 +1546,7 @@ def run(chk, replay=None):
     stats = Counter()
     n_probe = prefix_probe(chk, stats) if not replay else 0
     quick = chk.tier == "quick"
+    phase = {"prefix_probe": round(time.time() - t0, 1)}
     if replay:
         obj = json.loads(open(replay).read())
         scenarios = [obj["case"]] if obj.get("case", {}).get("ops") and "kind" in obj["case"] else []
@@ -1080,13 +1586,23 @@ def run(chk, replay=None):
                     chk.violation({"kind": "correspondence", "name": "emit"},
                                   {"failed": f"correspondence:emit {type(e).__name__}: {e}", "case": sc, "point": j}, no_input=True)
             if pt.get("sql"):
-                sfails = oracle_sql(pt["sql"])
+                sfails = oracle_sql_np_scalar(sc, pt) if sc["kind"] == "np_scalar" else oracle_sql(pt["sql"])
                 for d, msg in sfails:
                     chk.violation(d, {"failed": "oracle:sqlite " + msg, "case": sc, "point": j})
-                sql_lits.append(emit_sql(pt["sql"]))
-                sql_meta.append((sc, j, bool(sfails)))
+                try:
+                    sql_lits.append(emit_sql(pt["sql"]))
+                    sql_meta.append((sc, j, bool(sfails)))
+                except Exception as e:  # noqa: BLE001 - an observation the literal format cannot express
+                    if not sfails:
+                        chk.violation({"kind": "correspondence", "name": "emit_sql"},
+                                      {"failed": f"correspondence:emit_sql {type(e).__name__}: {e}", "case": sc, "point": j}, no_input=True)
                 stats["sqlite_points"] += 1
-    bad, errors = chk.coq_mismatches("C04", IMPORTS, "check_case", "ccase", lits, shard=40) if lits else ([], [])
+    phase["scenarios_on_real_code"] = round(time.time() - t0, 1)
+    # the literals differ in size by three orders of magnitude (histories of 800 rows): order them so that the files compiled in
+    # parallel have about the same size (the order of `meta` follows)
+    perm, bad, errors = coq_eval_cases(chk, "C04", "check_case", "ccase", lits)
+    lits, meta = [lits[i] for i in perm], [meta[i] for i in perm]
+    phase["coq_folder"] = round(time.time() - t0, 1)
     for i in bad:
         sc, j, failed, pt = meta[i]
         if failed:
@@ -1097,13 +1613,15 @@ def run(chk, replay=None):
                                  "no failing input)", "case": sc, "point": j, "model_explain(modes, restore code, differing components)": expl,
                        "observed_modes": [m for _, m in pt["hist"]], "observed_restore": pt["rexc"], "components": COMPONENTS},
                       no_input=True)
-    sbad, serrors = chk.coq_mismatches("C04sql", IMPORTS, "check_sql", "sqcase", sql_lits, shard=40) if sql_lits else ([], [])
+    perm, sbad, serrors = coq_eval_cases(chk, "C04sql", "check_sql", "sqcase", sql_lits)
+    sql_lits, sql_meta = [sql_lits[i] for i in perm], [sql_meta[i] for i in perm]
     for i in sbad:
         sc, j, failed = sql_meta[i]
         if not failed:
             chk.violation({"kind": "correspondence", "name": "check_sql"},
                           {"failed": "correspondence:Checkpoint.check_sql", "case": sc, "point": j}, no_input=True)
 
+    phase["coq_sqlite"] = round(time.time() - t0, 1)
     # ---- float stress
     stress = None
     if nstress:
@@ -1112,6 +1630,7 @@ def run(chk, replay=None):
             chk.violation({"kind": "float_path_not_exact", "path": b["path"].split(":")[0]},
                           {"failed": "oracle:float stress " + json.dumps(b), "case": {"stress": nstress, "seed": chk.seed}})
 
+    phase["float_stress"] = round(time.time() - t0, 1)
     # ---- token traces of the shared model with a saving folder (calibrate clause)
     tbad, terrors = [], []
     if traces:
@@ -1141,15 +1660,18 @@ def run(chk, replay=None):
         "rule": "verification points (restore + full component-wise comparison) of scenario runs on the real Calibrator: scripted "
                 "samplers/loss/model with floats from all binades, real line-ups covering the nine built-in samplers, RL scheduler; "
                 "folder histories: fresh, same run, other run with more/fewer rows, other ensemble size, other series shape, other "
-                "dimension, empty table, calibrate(0), early stop, exception, set_samplers; non-trivial = the folder had been written "
-                "at least twice before the restore",
+                "dimension, empty table, calibrate(0), early stop, exception, set_samplers; round 4: other input representations, "
+                "reassigned attributes, two folders, interleaved original and restored copy, reused sampler / loss objects, 500-850-row "
+                "histories, precision 0 / >8, n_jobs != 1, relative / slash / PathLike folders, failing operations followed by normal ones; "
+                "non-trivial = the folder had been written at least twice before the restore",
         "samples": samples,
         "traces_validated_against_impl": len(lits) - len(bad) + len(sql_lits) - len(sbad) + len(traces) - len(tbad),
         "model_impl_disagreements": {"folder": len(bad), "sqlite": len(sbad), "trace": len(tbad)},
         "folder_points": len(lits), "sqlite_points": len(sql_lits), "trace_cases": len(traces),
+        "coq_literal_kb": {"folder": sum(map(len, lits)) // 1024, "sqlite": sum(map(len, sql_lits)) // 1024},
         "float_stress": stress,
         "distribution": dict(sorted(stats.items())),
-        "implementation_wall_s": round(time.time() - t0, 1),
+        "implementation_wall_s": round(time.time() - t0, 1), "cumulative_phase_wall_s": phase,
     }
     return chk.finish(
         cov,
